@@ -32,6 +32,7 @@ ASSUMPTIONS = [
 ]
 
 RESERVED = re.compile(r"^__scfg_\w+__$")
+_SHARED = None  # one SCFG2ASTTransformer per process, reused for every program
 
 
 def census(scfg, out, original_names):
@@ -176,6 +177,25 @@ def check_program(src):
                 fails.append({"kind": "census", "signature": sg, "detail": repr(e)[:300]})
     except Exception as e:
         fails.append({"kind": "codegen", "signature": "second-generation:" + exc_signature(e), "detail": repr(e)[:200]})
+    # history: ONE transformer object of the public class used for program after program (this process, see runner history)
+    try:
+        from numba_scfg.core.datastructures.ast_transforms import SCFG2ASTTransformer, unparse_code
+
+        global _SHARED
+        if _SHARED is None:
+            _SHARED = SCFG2ASTTransformer()
+        out3 = _SHARED.transform(original=unparse_code(src)[0], scfg=scfg)
+        for e in census(scfg, out3, names):
+            if sig_of(e) in seen:
+                continue
+            sg = "shared-transformer:" + sig_of(e)
+            if sg not in seen:
+                seen.add(sg)
+                fails.append({"kind": "census", "signature": sg, "detail": repr(e)[:300]})
+    except NotImplementedError:
+        pass
+    except Exception as e:
+        fails.append({"kind": "codegen", "signature": "shared-transformer:" + exc_signature(e), "detail": repr(e)[:200]})
     return fails, "ok"
 
 
@@ -254,7 +274,7 @@ def jobs(tier):
         out.append(Job(name="S2-ctl-c3-core-kinds", space=lambda: (None, [], None), harness=harness_for(fac),
                        bounds={"space": "S2-ctl", "compounds<=": 3, "kinds": ["if", "ifelse", "while"], "depth<=": 2, "terminators<=": 1},
                        budget_s=900, cubes_fn=lambda: s2.enum_prefixes(lambda ch: fac(ch).program(), 3)))
-    gj = s1_jobs(tier, graph_harness)
+    gj = s1_jobs(tier, graph_harness, with_routes=False)
     if tier == "quick":
         gj = gj[:2]  # N = 3, 4 all labellings
     else:
